@@ -128,9 +128,11 @@ def random_jobs(ctx, prop, count):
               "modularity_probtune_und_sign", "community_louvain"]
     labels_pool = [-3, 0, 1, 2, 7, 100, 5, 9, 11, 42]
     for t in range(count):
-        gn, gd = GAMMAS[t % 3] if t % 2 else (1, 1)
+        # every option is drawn from the seeded RNG: index arithmetic on t aliases (a first version
+        # never paired qtype 'gja' with a one-signed input for modularity_louvain_und_sign)
+        gn, gd = rng.choice(GAMMAS + [(1, 1)])
         if t % 3 != 2:
-            fn = unsigned[(t // 3) % len(unsigned)]
+            fn = rng.choice(unsigned)
             und = lc.KIND[fn] in ("und",) or (fn == "community_louvain" and rng.random() < 0.6)
             n = rng.randint(5, 8)
             W = inputs.rand_graph(rng, n, rng.choice([0.3, 0.5, 0.8]), und=und, wmax=rng.choice([1, 3]))
@@ -142,12 +144,17 @@ def random_jobs(ctx, prop, count):
             if fn in ("modularity_louvain_und", "modularity_louvain_dir") and rng.random() < 0.4:
                 job["hierarchy"] = 1
         else:
-            fn = signed[(t // 3) % len(signed)]
+            fn = rng.choice(signed)
             n = rng.randint(4, 6)
             W = inputs.rand_graph(rng, n, rng.choice([0.5, 0.8, 1.0]), und=True, wmax=2, signed=True)
-            if not ((W > 0).any() and (W < 0).any()):
+            one_sign = rng.random() < 0.3 and fn != "community_louvain"
+            if one_sign:        # the signed routines document non-negative input as admissible:
+                W = np.abs(W)   # one sign absent (s1 = 0) exercises the placeholder branches
+            elif not ((W > 0).any() and (W < 0).any()):
                 continue
-            job = dict(fn=fn, prop=prop, W=W.tolist(), gn=gn, gd=gd, qtype=QTYPES[(t // 12) % 5],
+            if W.sum() <= 0 and one_sign:
+                continue
+            job = dict(fn=fn, prop=prop, W=W.tolist(), gn=gn, gd=gd, qtype=rng.choice(QTYPES),
                        seed=rng.randrange(2 ** 31), src="random")
             if fn == "community_louvain":
                 job["objective"] = rng.choice(["negative_sym", "negative_asym"])
